@@ -16,6 +16,7 @@ import (
 	"encoding/json"
 	"errors"
 	"fmt"
+	"google.golang.org/protobuf/proto"
 	"os"
 	"path/filepath"
 	"sort"
@@ -67,6 +68,21 @@ func valueOf(m nodeenrollment.MessageWithId) string {
 		return x.WrappingKeyId
 	}
 	return "?"
+}
+
+// dirty is a destination that still holds the result of some earlier load.
+func dirty(t, id string) nodeenrollment.MessageWithId {
+	switch t {
+	case "ni":
+		return &types.NodeInformation{Id: id, RegistrationNonce: []byte("left-over"), CertificatePublicKeyPkix: []byte("left-over")}
+	case "nc":
+		return &types.NodeCredentials{Id: id, RegistrationNonce: []byte("left-over"), CertificateBundles: []*types.CertificateBundle{{CertificateDer: []byte("left-over")}}}
+	case "rc":
+		return &types.RootCertificates{Id: id, WrappingKeyId: "left-over", Next: &types.RootCertificate{Id: "left-over"}}
+	case "tk":
+		return &types.ServerLedActivationToken{Id: id, WrappingKeyId: "left-over", CreationTimeMarshaled: []byte("left-over")}
+	}
+	panic("type " + t)
 }
 
 // scribble overwrites the message after it was handed to Store: a back end
@@ -227,6 +243,16 @@ func observe(be *backend, m model) string {
 				return fmt.Sprintf("load %s/%s: got value %q id %q, most recently stored was %q", t, id, valueOf(msg), msg.GetId(), want)
 			case !exists && err == nil:
 				return fmt.Sprintf("load %s/%s: absent entry was returned (value %q)", t, id, valueOf(msg))
+			case exists:
+				// a load returns the stored message, whatever the destination
+				// held before (a value reused from an earlier load)
+				dst := dirty(t, id)
+				if err := be.st.Load(ctx, dst); err != nil {
+					return fmt.Sprintf("load %s/%s into a reused destination failed: %v", t, id, err)
+				}
+				if !proto.Equal(dst, newMsg(t, id, want)) {
+					return fmt.Sprintf("load %s/%s into a reused destination: the result keeps what the destination held before the load (got %v)", t, id, dst)
+				}
 			case !exists && !errors.Is(err, nodeenrollment.ErrNotFound):
 				return fmt.Sprintf("load %s/%s: absent entry reported with an error that is not ErrNotFound: %v", t, id, err)
 			}
